@@ -52,7 +52,7 @@ fn log(off: usize, w: bool, width: u8, v: u64) {
 }
 fn dev_read(off: usize, width: u8) -> u64 {
     unsafe {
-        if off == POLL_OFF && width == 4 {
+        if off == POLL_OFF {
             if POLL_LEFT > 0 {
                 POLL_LEFT -= 1;
                 return POLL_BUSY_VAL as u64;
